@@ -11,7 +11,7 @@ implementations agree with each other (C10), and a direct declaration that succe
 from .. import core
 
 THEOREMS = ["ZI.SpecTwin.C10_providedBy_twin", "ZI.SpecTwin.C10_getObjectSpecification_twin", "ZI.SpecTwin.C10_implementedBy_twin",
-            "ZI.SpecTwin.C10_sbProvidedBy_twin", "ZI.SpecTwin.C10_providedBy_twin_pinned", "ZI.SpecTwin.C10_providedBy_pinned_diverges"]
+            "ZI.SpecTwin.C10_sbProvidedBy_twin", "ZI.SpecTwin.C10_osd_get_twin", "ZI.SpecTwin.C10_cpb_get_twin", "ZI.SpecTwin.C10_providedBy_twin_pinned", "ZI.SpecTwin.C10_providedBy_pinned_diverges"]
 
 CONT = ["dict", "slots", "slotsnp", "super"]
 PB = ["absent", "desc", "descwarm", "junk", "proxy", "spec", "raiseA", "raiseO", "extraise"]
